@@ -11,6 +11,7 @@ REGISTRY = {
     'C12': ('sim.props.c12', 'C12'),
     'C13': ('sim.props.c13', 'C13'),
     'C15': ('sim.props.c15', 'C15'),
+    'C16': ('sim.props.c16', 'C16'),
     'C17': ('sim.props.c17', 'C17'),
     'C19': ('sim.props.c19', 'C19'),
     'C20': ('sim.props.c20', 'C20'),
